@@ -855,6 +855,92 @@ theorem copying_normaliser_breaks_identity {s s1 s2 : St} {c : Nat} {cy cy' : Bo
   subst this
   exact hab (arr_key_inj hk1 hk2)
 
+/-! ### keyword call forms -/
+
+/-- The kwargs -> args step of `FunsorMeta.__call__` walks the FIELD list. -/
+theorem meta_call_source_form_modelled :
+    FV.Gen.C07.metaCallForm =
+      "if cls.__args__: cls = cls.__origin__ ;; if kwargs: args = list(args) for name in cls._ast_fields[len(args):]: args.append(kwargs.pop(name)) assert not kwargs, kwargs args = tuple(args) ;; return interpret(cls, *args)" := by
+  rfl
+
+theorem lookupKw_perm {kws kws' : List (String × List ArgTok)} (h : kws.Perm kws')
+    (hn : (kws.map (·.1)).Nodup) (n : String) : lookupKw kws n = lookupKw kws' n := by
+  induction h with
+  | nil => rfl
+  | cons x _ ih =>
+    simp only [List.map_cons, List.nodup_cons] at hn
+    simp only [lookupKw]
+    split
+    · rfl
+    · exact ih hn.2
+  | swap x y l =>
+    simp only [List.map_cons, List.nodup_cons, List.mem_cons, not_or] at hn
+    simp only [lookupKw]
+    by_cases hx : x.1 = n
+    · by_cases hy : y.1 = n
+      · exact absurd (hy.trans hx.symm) hn.1.1
+      · simp [hx, hy]
+    · by_cases hy : y.1 = n <;> simp [hx, hy]
+  | trans h1 _ ih1 ih2 =>
+    rw [ih1 hn]
+    exact ih2 ((h1.map (·.1)).nodup_iff.mp hn)
+
+/-- **Any permutation of the keyword list gives the same argument tuple, hence the same key and the
+    same object**: the call order of keyword arguments is invisible to the cons cache. -/
+theorem key_of_kwargs_permutation_invariant (fields : List String) (pos : List (List ArgTok))
+    {kws kws' : List (String × List ArgTok)} (h : kws.Perm kws') (hn : (kws.map (·.1)).Nodup) :
+    kwargsToArgs fields pos kws = kwargsToArgs fields pos kws' := by
+  unfold kwargsToArgs
+  have he : kws.isEmpty = kws'.isEmpty := by
+    cases kws with
+    | nil => rw [List.Perm.nil_eq h]
+    | cons a l =>
+      cases kws' with
+      | nil => exact absurd (List.Perm.eq_nil h) (by simp)
+      | cons b l' => rfl
+  have hm : (fields.drop pos.length).mapM (lookupKw kws) =
+      (fields.drop pos.length).mapM (lookupKw kws') := by
+    congr 1
+    funext n
+    exact lookupKw_perm h hn n
+  have ha : kws.all (fun kv => decide (kv.1 ∈ fields.drop pos.length)) =
+      kws'.all (fun kv => decide (kv.1 ∈ fields.drop pos.length)) := by
+    rw [Bool.eq_iff_iff, List.all_eq_true, List.all_eq_true]
+    constructor
+    · intro hh x hx; exact hh x (h.mem_iff.mpr hx)
+    · intro hh x hx; exact hh x (h.mem_iff.mp hx)
+  simp only [he, hm, ha]
+
+theorem callKw_perm (s : St) (fields : List String) (mcls : String) (cls : Nat) (cyc : Bool)
+    (pos : List (List ArgTok)) {kws kws' : List (String × List ArgTok)} (nid : Id)
+    (h : kws.Perm kws') (hn : (kws.map (·.1)).Nodup) :
+    callKw s fields mcls cls cyc pos kws nid = callKw s fields mcls cls cyc pos kws' nid := by
+  unfold callKw
+  rw [key_of_kwargs_permutation_invariant fields pos h hn]
+
+/-- All-keyword, mixed and all-positional forms of `Binary(op, lhs, rhs)` agree; -/
+theorem kwargs_forms_agree :
+    let f := ["op", "lhs", "rhs"]
+    kwargsToArgs f [] [("rhs", [.obj 3]), ("op", [.obj 1]), ("lhs", [.obj 2])] =
+      some [[.obj 1], [.obj 2], [.obj 3]] ∧
+    kwargsToArgs f [[.obj 1]] [("rhs", [.obj 3]), ("lhs", [.obj 2])] =
+      some [[.obj 1], [.obj 2], [.obj 3]] ∧
+    kwargsToArgs f [[.obj 1], [.obj 2], [.obj 3]] [] = some [[.obj 1], [.obj 2], [.obj 3]] ∧
+    kwargsToArgs f [[.obj 1]] [("rhs", [.obj 3])] = Option.none ∧
+    kwargsToArgs f [[.obj 1], [.obj 2]] [("rhs", [.obj 3]), ("lhs", [.obj 2])] = Option.none := by
+  decide
+
+/-- **Witness for call-order keys**: appending the keyword values in call order keys
+    `Binary(op, rhs=y, lhs=x)` as `Binary(op, y, x)` — a different key from `Binary(op, x, y)`. -/
+theorem call_order_keys_witness :
+    kwargsToArgsCallOrder [[.obj 1]] [("rhs", [.obj 3]), ("lhs", [.obj 2])] =
+      [[.obj 1], [.obj 3], [.obj 2]] ∧
+    mkKey (kwargsToArgsCallOrder [[.obj 1]] [("rhs", [.obj 3]), ("lhs", [.obj 2])]).flatten ≠
+      mkKey [.obj 1, .obj 2, .obj 3] ∧
+    mkKey (kwargsToArgsCallOrder [[.obj 1]] [("rhs", [.obj 3]), ("lhs", [.obj 2])]).flatten =
+      mkKey [.obj 1, .obj 3, .obj 2] := by
+  decide
+
 /-! ### weakly held -/
 
 /-- Freeing an object removes its table entry with it: no later lookup can return it. -/
